@@ -2,11 +2,97 @@ import RattrDriver.AstJson
 import RattrModel.Crash
 
 namespace Rattr.Driver.C07
-open Lean Rattr Rattr.Driver
+open Lean Rattr Rattr.Driver Rattr.Crash Rattr.FnA
 
-/-- op `no_crash_shape`: function body → the Lean predicate `Crash.NoCrashShapeFn`. -/
+/-- which local condition of `Crash.okN` fails where (reporting aid: the labels name the conjuncts and
+the crash row each stands for; not part of the verified model). -/
+partial def why (k : Bool) : Node → List String
+  | .name _ _ => []
+  | .attr v a c => nameLike (.attr v a c) v
+  | .sub v sl c => nameLike (.sub v sl c) v
+  | .starred v c => nameLike (.starred v c) v
+  | .call f args kwn kwv =>
+    let node := Node.call f args kwn kwv
+    (if nameOk true f && nameOk true node then [] else ["K5:call-name"]) ++
+    (if !xattrSpelled (calleeName node) then []
+     else if k then ["K22:getattr-family-call-in-key-lambda"]
+     else if xattrOldOk (calleeName node) args then [] else ["K5:getattr-family-object"]) ++
+    (if factoryOk args then [] else ["defaultdict-factory"]) ++
+    (if args.all (oldOk true) && kwv.all (oldOk true) then [] else ["K5:argument-spelling"]) ++
+    (if starsOk k node then [] else ["K22:stars"]) ++
+    args.flatMap (why k) ++ kwv.flatMap (why k) ++ whyKeys kwn kwv
+  | .lam _ body => why k body
+  | .comp _ elts gens => gens.flatMap (why k) ++ elts.flatMap (why k)
+  | .gen t iter ifs => (if unravelOk t then [] else ["K4:comprehension-target"]) ++ why k t ++ why k iter ++ ifs.flatMap (why k)
+  | .walrus t v =>
+    (if nameOk false t then [] else ["K4:walrus-target"]) ++ (if !k || isNameNode t then [] else ["K22:walrus-target"]) ++
+    whyAssign k [t] v ++ why k t ++ why k v
+  | .strConst _ => []
+  | .const => []
+  | .seq _ elts _ => elts.flatMap (why k)
+  | .dict keys vals => keys.flatMap (why k) ++ vals.flatMap (why k)
+  | .assign targets v => stmt k ++ whyAssign false targets v ++ targets.flatMap (why false) ++ why false v
+  | .annAssign t ann [] => stmt k ++ (if unravelOk t then [] else ["K4:store-target"]) ++ why false t ++ why false ann
+  | .annAssign t ann (v0 :: _) => stmt k ++ whyAssign false [t] v0 ++ why false t ++ why false ann ++ why false v0
+  | .augAssign t v => stmt k ++ whyAssign false [t] v ++ why false t ++ why false v
+  | .delete targets => stmt k ++ (if targets.all unravelFullOk then [] else ["K4:del-target"]) ++ targets.flatMap (why false)
+  | .forLoop t iter body orelse =>
+    stmt k ++ (if unravelOk t then [] else ["K4:for-target"]) ++ why false t ++ why false iter ++ whyB false body ++ whyB false orelse
+  | .withStmt items body => stmt k ++ (if withItemsOk items then [] else ["K4:with-target"]) ++ items.flatMap (why false) ++ whyB false body
+  | .withitem ce vars => stmt k ++ why false ce ++ vars.flatMap (why false)
+  | .funcDef _ _ body => stmt k ++ whyB false body
+  | .classDef _ => stmt k
+  | .ret [] => stmt k
+  | .ret (v0 :: _) => stmt k ++ (if okRet' v0 then [] else ["K4:returned-class-call"]) ++ why false v0
+  | .forbidden _ => []
+  | .other _ kids => whyB k kids
+where
+  nameLike (n v : Node) : List String :=
+    (if nameOk true n then [] else ["K5:name"]) ++ (if starsOk k n then [] else ["K22:stars"]) ++
+    (if v.isNameable then [] else why k v)
+  stmt (k : Bool) : List String := if k then ["K22:statement-in-key-lambda"] else []
+  whyB (k : Bool) : List Node → List String
+    | [] => []
+    | n :: r => why k n ++ (if stops n then [] else whyB k r)
+  whyKeys : List (Option Str) → List Node → List String
+    | some kw :: rn, v :: rv =>
+      if kw = "key".toList then
+        (match v with
+         | .lam ps body =>
+           (if ps.args.length == 1 then [] else ["K3:key-lambda-arity"]) ++
+           (if cleanId ((ps.args.head?).getD []) then [] else ["K22:key-lambda-parameter"]) ++ why true body
+         | _ => [])
+      else whyKeys rn rv
+    | none :: rn, _ :: rv => whyKeys rn rv
+    | _, _ => []
+  whyAssign (k : Bool) (targets : List Node) (value : Node) : List String :=
+    (if firstTargetOk' k targets value then [] else ["K4:assign-first-target"]) ++
+    (if classProbeOk value then [] else ["K5:assign-class-probe"]) ++
+    (if targets.all unravelOk then [] else ["K4:store-target"]) ++
+    (match value with
+     | .call f a kn kv =>
+       if !oneToOne targets value || oldLiteral value || nameOk false (.call f a kn kv) then [] else ["K4:assigned-class-call"]
+     | _ => [])
+
+def whyBody (body : List Node) : List String :=
+  let rec go : List Node → List String
+    | [] => []
+    | n :: r => why false n ++ (if stops n then [] else go r)
+  (go body).eraseDups
+
+/-- op `no_crash_shape`: function body (+ optionally the root context's symbols) → the Lean predicates
+`Crash.NoCrashShapeFn` (`ok`), the round-1 predicate `NoCrashShapeFnAnyCtx` (`ok_anyctx`), `SaneCtx root`
+(`sane`), and the failing clauses of the former (`rows`). -/
 def handle (payload : Json) : R Json := do
   let body ← (← asArr (← field payload "body")).mapM asNode
-  return Json.mkObj [("ok", Json.bool (Crash.NoCrashShapeFn body))]
+  let sane ← match payload.getObjVal? "root" with
+    | .ok r => do
+      let syms ← (← asArr r).mapM asSym
+      pure (Crash.SaneCtx [syms.map (fun s => (s.name, s))])
+    | .error _ => pure true
+  return Json.mkObj [("ok", Json.bool (Crash.NoCrashShapeFn body)),
+                     ("ok_anyctx", Json.bool (Crash.NoCrashShapeFnAnyCtx body)),
+                     ("sane", Json.bool sane),
+                     ("rows", jStrList (whyBody body))]
 
 end Rattr.Driver.C07
